@@ -4,3 +4,5 @@ import Emitter.Props.C18
 #print axioms Emitter.C18.unsubscribe_notifies_once
 #print axioms Emitter.C18.notification_receivers
 #print axioms Emitter.C18.sync_step
+#print axioms Emitter.C18.status_history
+#print axioms Emitter.C18.notify_history
